@@ -332,6 +332,23 @@ theorem Ext.of_activation {σ σ' : Store} (h : (enter σ).Ext σ') : σ.Ext (le
     simp only [enter, leave] at this ⊢
     omega
 
+theorem Ext.dExt {σ σ' : Store} (h : σ.Ext σ') : σ.DExt σ' := ⟨h.size, h.frames, h.vecs, h.out, h.ticks⟩
+theorem DExt.refl (σ : Store) : σ.DExt σ := ⟨Nat.le_refl _, fun _ _ => rfl, rfl, rfl, rfl⟩
+theorem DExt.trans {σ₁ σ₂ σ₃ : Store} (h₁ : σ₁.DExt σ₂) (h₂ : σ₂.DExt σ₃) : σ₁.DExt σ₃ where
+  size := Nat.le_trans h₁.size h₂.size
+  frames i hi := (h₂.frames i (Nat.lt_of_lt_of_le hi h₁.size)).trans (h₁.frames i hi)
+  vecs := h₂.vecs.trans h₁.vecs
+  out := h₂.out.trans h₁.out
+  ticks := h₂.ticks.trans h₁.ticks
+theorem DExt.framesExt {σ σ' : Store} (h : σ.DExt σ') : σ.FramesExt σ' := ⟨h.size, h.frames⟩
+theorem dExt_enter (σ : Store) : σ.DExt (enter σ) := ⟨Nat.le_refl _, fun _ _ => rfl, rfl, rfl, rfl⟩
+theorem dExt_leave (σ : Store) : σ.DExt (leave σ) := ⟨Nat.le_refl _, fun _ _ => rfl, rfl, rfl, rfl⟩
+
+theorem Keeps.of_framesExt {σ σ' : Store} (h : σ.FramesExt σ') (b N : Nat) : σ.Keeps b N σ' :=
+  ⟨h.size, fun i hi _ => h.frames i hi⟩
+theorem Keeps.trans {b N : Nat} {σ₁ σ₂ σ₃ : Store} (h₁ : σ₁.Keeps b N σ₂) (h₂ : σ₂.Keeps b N σ₃) : σ₁.Keeps b N σ₃ where
+  size := Nat.le_trans h₁.size h₂.size
+  frames i hi hc := (h₂.frames i (Nat.lt_of_lt_of_le hi h₁.size) hc).trans (h₁.frames i hi hc)
 end Ruschm.Store
 namespace Ruschm.ListLib
 open Ruschm Ruschm.Eval Ruschm.ListSpec Ruschm.Store
@@ -812,6 +829,7 @@ section rules
 variable {b ρ : Nat} {bs : List (String × Value)}
 
 theorem PEval.congr {e r r'} (h : PEval b ρ bs e r) (hr : r = r') : PEval b ρ bs e r' := hr ▸ h
+theorem PArgs.congr {es r r'} (h : PArgs b ρ bs es r) (hr : r = r') : PArgs b ρ bs es r' := hr ▸ h
 theorem PTail.congr {e r r'} (h : PTail b ρ bs e r) (hr : r = r') : PTail b ρ bs e r' := hr ▸ h
 theorem PApp.congr {p args r r'} (h : PApp b p args r) (hr : r = r') : PApp b p args r' := hr ▸ h
 
